@@ -24,7 +24,7 @@ THEOREMS = ["Yardl.C16.old_version_prefix_never_decodes", "Yardl.C16.value_prefi
             "Yardl.C16.verify_finished_iff", "Yardl.C16.py_reader_byte", "Yardl.C16.py_reader_fixed", "Yardl.C16.py_reader_varint",
             "Yardl.C16.py_reader_bytes", "Yardl.C16.py_reader_byte_cut", "Yardl.C16.py_reader_fixed_cut", "Yardl.C16.py_reader_varint_cut",
             "Yardl.C16.py_reader_bytes_cut", "Yardl.C16.py_buffer_error_only_when_truncated",
-            "Yardl.C16.py_reader_truncated_sequence_is_an_error"]
+            "Yardl.C16.py_reader_truncated_sequence_is_an_error", "Yardl.C16.cpp_reader_truncated_sequence_is_eos"]
 
 
 def run(report, tier, seed):
